@@ -67,7 +67,9 @@ STAGES = {"arrangements": (obs_subject, "SubjectTrace")}
 EXPRS = ["tomorrow 8pm", "friday 8pm-9pm", "5.3.2021", "monday 9:00 - 10:30", "next friday at noon", "31.12. 23:59", "today",
          "10-12-2021", "in 3 days"[3:], "tomorrow morning", "8:30", "monday", "5 march 2021 17:00", "heute 15 uhr", "12.5."]
 ORD = ["the", "and", "mom", "meeting", "dinner", "team", "report", "with", "about"]
-TAGS = ["work", "Family", "a_b", "x-y", "_todo", "Q3", "food"]
+TAGS = ["work", "Family", "a_b", "x-y", "_todo", "Q3", "food", "a", "x", "x1", "team", "team-b", "work2", "Q", "_", "food_"]
+# pairs in which one hashtag is a proper prefix of the other (both orders are generated)
+PREFIX_PAIRS = [("team", "team-b"), ("x", "x1"), ("a", "a_b"), ("work", "work2"), ("Q", "Q3"), ("food", "food_"), ("_", "_todo")]
 SEPS = [" ", "  ", ", ", " ; ", " (", ") ", "\t", " , "]
 
 
@@ -114,6 +116,16 @@ def run(ctx):
                 else:
                     flat.append([k, w])
             cases.append({"items": items, "flat": flat, "seps": seps, "label": "".join(ks), "form": expr})
+            # two hashtags one of which is a prefix of the other, in both orders
+            hpos = [i for i, it in enumerate(items) if it[0] == "H"]
+            if len(hpos) >= 2 and rep == 0:
+                for pa, pb in (rnd.choice(PREFIX_PAIRS), tuple(reversed(rnd.choice(PREFIX_PAIRS)))):
+                    items3 = [list(it) for it in items]
+                    items3[hpos[0]][1], items3[hpos[1]][1] = pa, pb
+                    flat3 = []
+                    for kk, w in items3:
+                        flat3 += [["T", x] for x in words(w)] if kk == "T" else [[kk, w]]
+                    cases.append({"items": items3, "flat": flat3, "seps": seps, "label": "".join(ks) + "+prefix-tags", "form": expr})
             # the same arrangement with a hashtag INSIDE the time expression (between two of its words)
             tw = expr.split(" ")
             if len(tw) >= 2 and rep == 0:
